@@ -91,6 +91,12 @@ def _event_ref(t: T) -> Optional[Tuple[str, T]]:
         if idx == const(-1):
             return ("END", idx)
         return ("EV", idx)
+    if t.op == "elem" and t.a[0].op == "slice" and t.a[0].a[0] == EVENTS and len(t.a[0].a) == 3:
+        lo, hi = t.a[0].a[1], t.a[0].a[2]
+        if lo in (const(None), const(0)) and hi == const(1):
+            return ("START", const(0))          # the element of events[:1] is the first record
+        if lo == const(-1) and hi == const(None):
+            return ("END", const(-1))
     return None
 
 
@@ -203,6 +209,10 @@ def _classify(t, out: Set[tuple]) -> None:
             if f.a[1] == "parse_event_list":
                 out.add(("NESTED",))
                 return
+    if op == "slice" and t.a[0] == EVENTS and len(t.a) == 3 and (
+            (t.a[1] in (const(None), const(0)) and t.a[2] == const(1)) or (t.a[1] == const(-1) and t.a[2] == const(None))):
+        # events[:1] / events[-1:]: the list holding the first / last record only - not the whole window
+        return                  # (what is read from its element is classified where it is read)
     if op == "param":
         if t == EVENTS:
             out.add(("WINDOW",))
